@@ -19,6 +19,7 @@ namespace c16 {
 struct RNode
 {
   std::string name, content;
+  bool content_ambiguous = false;  // the text has \v or \f at an end: the reader's two trimming rules disagree, content not compared
   std::map<std::string, std::string> props;
   std::vector<RNode> child;
 };
@@ -60,6 +61,37 @@ inline Params params_max()
 static const char *const HEADERS[4] = {"", "<?xml version=\"1.0\"?>", "<?xml?>", "<?xml version='1.0' encoding=\"UTF-8\" ?>"};
 static const char *const NAMES[2] = {"a", "b_1"};
 static const char *const TEXTS[2] = {"t u", "p=\"q' /> -- ?> \\"};
+// Texts made of / framed by control whitespace (family 2).  The reader skips LEADING blanks with its own
+// isWhite() = {space, \\t, \\n, \\r} but trims TRAILING ones with isspace(), which also accepts \\v and \\f.
+// Where only {space,\\t,\\n,\\r} are involved both rules agree and the expected content is the text
+// trimmed of them; a text with \\v or \\f at either end is ambiguous (observed on the clean tree:
+// "<a>\\v</a>" returns empty content, "\\vt u\\v" returns "\\vt u", "<a>\\t\\v</a>" throws runtime_error
+// "invalid substring") - for those only totality and the std::runtime_error contract are judged.
+struct CText
+{
+  const char *bytes, *want;
+  bool ambiguous;
+};
+static const int NCTEXT = 16;
+static const CText CTEXTS[NCTEXT] = {
+    {"\tt u\t", "t u", false},
+    {"\nt u\r\n", "t u", false},
+    {"\r t\tu \r", "t\tu", false},
+    {"\t", "", false},
+    {"\r\n\t ", "", false},
+    {"\n\n", "", false},
+    {"t\vu\fw", "t\vu\fw", false},  // \v \f strictly inside: kept by both rules
+    {"\v", "", true},
+    {"\f", "", true},
+    {"\t\v", "", true},
+    {"\v\t", "", true},
+    {"\f \v\r", "", true},
+    {"\vt u\v", "t u", true},
+    {"\ft u\f", "t u", true},
+    {" \v t u \f ", "t u", true},
+    {"\t\v\f\n\r", "", true},
+};
+
 // comment bodies (between "<!--" and "-->").  Bodies that start with '>' or "->" are not in the
 // supported subset: the reader starts looking for "-->" right after "<!", so "<!-->x-->" ends at
 // "<!-->" (observed on the clean tree: <a><!-->x--><b/></a> returns a{x-->}(b)).
@@ -188,6 +220,7 @@ struct Gen
   RNode root;  // pseudo node: its children are the top-level elements
   int layout = 0, pattern = 0, slot = 0;
   bool toolong = false;
+  bool lenient = false;  // the document contains an ambiguous text: a std::runtime_error is acceptable
 
   Gen(Choices &cs, const Params &p, size_t maxlen_ = 0) : c(cs), P(p), maxlen(maxlen_) {}
 
@@ -300,6 +333,7 @@ struct Gen
   }
   // family 0: header x layout x comment pattern x tree (root + up to 2 leaf children)
   // family 1: nesting chains, depth 1..MAXCHAIN, one child per level
+  // family 2: texts made of / framed by control whitespace bytes
   // returns false if the document was cut by the length bound (the choice source is then cut)
   bool run()
   {
@@ -307,7 +341,8 @@ struct Gen
     root = RNode();
     slot = 0;
     toolong = false;
-    int family = c.choose(2);
+    lenient = false;
+    int family = c.choose(3);
     if (family == 0) {
       doc += HEADERS[c.choose(P.NH)];
       layout = c.choose(P.NL);
@@ -317,6 +352,50 @@ struct Gen
       element(0, 1, root.child.back());
       if (!over())
         finish_doc();
+    } else if (family == 2) {
+      // control-whitespace texts: layout x {no comments, 'c' in every slot} x root name x shape x text
+      layout = c.choose(P.NL);
+      pattern = c.choose(2);
+      std::string name = NAMES[c.choose(2)];
+      int shape = c.choose(4);  // 0 text only, 1 text then child, 2 child then text, 3 text inside the child
+      const CText &t = CTEXTS[c.choose(NCTEXT)];
+      lenient = t.ambiguous;
+      comment_slot(0);
+      root.child.push_back(RNode());
+      RNode &r = root.child.back();
+      r.name = name;
+      brk(0);
+      doc += "<" + name + ">";
+      comment_slot(1);
+      RNode *holder = &r;
+      if (shape == 1) {
+        brk(1);
+        doc += t.bytes;
+      }
+      if (shape != 0) {
+        r.child.push_back(RNode());
+        r.child.back().name = NAMES[1];
+        brk(1);
+        if (shape == 3) {
+          holder = &r.child.back();
+          doc += std::string("<") + NAMES[1] + ">";
+          brk(2);
+          doc += t.bytes;
+          brk(1);
+          doc += std::string("</") + NAMES[1] + ">";
+        } else
+          doc += std::string("<") + NAMES[1] + "/>";
+        comment_slot(1);
+      }
+      if (shape == 0 || shape == 2) {
+        brk(1);
+        doc += t.bytes;
+      }
+      holder->content = t.want;
+      holder->content_ambiguous = t.ambiguous;
+      brk(0);
+      doc += "</" + name + ">";
+      finish_doc();
     } else {
       layout = c.choose(P.NL);
       pattern = 0;
